@@ -21,7 +21,9 @@ META = {
     "self.other(), nested other block, scoped / unscoped block inside a for loop, required in the root) and every "
     "extends form (literal, variable, Template object, conditional expression, extends inside if, double extends, two "
     "conditional extends) with every flag assignment, plus depth 3 with one block, plus self.<block>() calls from the "
-    "root layout on literal chains (thorough: additionally depth 3 with two blocks - all kinds on literal chains, a "
+    "root layout on literal chains, plus small plans for scoped blocks inside if / with / a nested loop within a for "
+    "(overrides printing loop.index/loop.length) and for block bodies that use self.y() and super()/super.super() "
+    "together (thorough: additionally depth 3 with two blocks - all kinds on literal chains, a "
     "reduced kind set under all extends forms -, depth 4 with one block, three blocks at depth <= 2). Marker text before/between/after blocks and on both sides of "
     "the extends tag makes every misplaced or unsuppressed output visible. The whole rendered string or the exception "
     "class (TemplateRuntimeError / UndefinedError) must equal the resolver's answer.",
